@@ -168,10 +168,11 @@ pub fn generate(rng: &mut Rng, tier: &str) -> Case {
     let template = *rng.pick(catalogue::TEMPLATES);
     let mut program = if rng.chance(2, 5) {
         // a seeded random program (DAG of entities spread over files and modules), sometimes with an injected error
-        let inject = match rng.below(8) {
+        let inject = match rng.below(9) {
             0 => 1,
             1 => 2,
             2 => 3,
+            3 => 4,
             _ => 0,
         };
         catalogue::random_program(rng, inject)
@@ -273,7 +274,8 @@ pub fn generate(rng: &mut Rng, tier: &str) -> Case {
     // ---- equivalent: a file moves between the lists
     if n >= 2 {
         for _ in 0..(if tier == "quick" { 1 } else { 3 }) {
-            let i = 1 + rng.usize_below(n - 1);
+            // any file may move, the first one included (then, possibly, every input is a reference)
+            let i = rng.usize_below(n);
             let mut l2 = Layout { files: layout.files.clone(), duplicate: layout.duplicate };
             let how = l2.files[i].2;
             let new_how = match how {
